@@ -6,6 +6,7 @@ bit-for-bit; every random choice comes from the `random.Random` the caller passe
 API
 ---
 Terms (JSON):  ["i", iri]  |  ["b", label]  |  ["l", lexical, datatype_iri_or_None, lang_or_None]
+               (a fifth element "raw" on a literal = build it with normalize=False; never generated, for witnesses)
 Spec  (JSON):  {"triples": [[s, p, o], ...],           # terms as above, duplicates removed, order kept
                 "prefixes": [[prefix, namespace], ...], # bindings to add with Graph.bind (may be [])
                 "bind": "rdflib" | "none" | "core",      # Graph(bind_namespaces=…)
@@ -168,6 +169,8 @@ def term(t):
     if t[0] == "b":
         return BNode(t[1])
     if t[0] == "l":
+        if len(t) > 4 and t[4] == "raw":   # lexical form kept as given (Literal(..., normalize=False)); witnesses only
+            return Literal(t[1], datatype=URIRef(t[2]) if t[2] is not None else None, lang=t[3], normalize=False)
         return Literal(t[1], datatype=URIRef(t[2]) if t[2] is not None else None, lang=t[3])
     raise ValueError(t)
 
@@ -530,6 +533,20 @@ def gen_spec(rng, size=None, profile="mixed", lists="all"):
         rng.shuffle(perm)
         m = dict(zip(labs, perm))
         c.ts = [[(B(m[x[1]]) if x[0] == "b" else x) for x in t] for t in c.ts]
+    if rng.random() < 0.55:
+        # make the graph expressible in RDF/XML (XML 1.0 characters only, splittable predicates), so that the XML
+        # writers see most of the topologies too; the rest keeps the hostile characters for the other formats
+        safe_p = "http://ex.org/ns#p"
+        ts = []
+        for s_, p_, o_ in c.ts:
+            if not xml_splittable(p_[1]):
+                p_ = I(safe_p)
+            if o_[0] == "l" and not xml10_ok(o_[1]):
+                o_ = L("".join(ch for ch in o_[1] if xml10_ok(ch)), o_[2], o_[3])
+            if [s_, p_, o_] not in ts:
+                ts.append([s_, p_, o_])
+        c.ts = ts
+        c.motifs.append("xml_safe")
     r = rng.random()
     bind = "rdflib" if r < 0.5 else ("none" if r < 0.85 else "core")
     prefixes = rng.choice(BIND_SETS) if rng.random() < 0.6 else []
